@@ -255,7 +255,7 @@ def formulas(thorough, rng):
     out.append(([[1], [-1]], 1, 'named'))
     out.append(([[1, -2]], 2, 'gap'))
     p3n = _clause_pool(3, 3, repeats=False)
-    nrand = 3000 if thorough else 300
+    nrand = 3000 if thorough else 1000
     for _ in range(nrand):            # three clauses of width <= 3 over 3 variables
         out.append(([list(rng.choice(p3 if rng.random() < .3 else p3n)) for _ in range(3)], 3, 'plain'))
     if thorough:
@@ -297,14 +297,12 @@ def compression_cases(thorough, rng):
                     for c1 in p2[1:]:
                         for c2 in p2[1:]:
                             out.append(([c1, c2], 2, 'plain', sp))
-    # L = 3: all graphs with R <= 3 (quick: R = 3 sampled), every single clause of width <= 3 (distinct literals
+    # L = 3: all graphs with R <= 3, every single clause of width <= 3 (distinct literals
     # quick / ordered with repetitions thorough) and a few three-clause formulas
     p3 = _clause_pool(3, 3) if thorough else _clause_pool(3, 3, repeats=False)
     three = [[list(rng.choice(p3)) for _ in range(3)] for _ in range(6)]
     for R in range(0, 4):
         gs = graphs(3, R)
-        if R == 3 and not thorough:
-            gs = rng.sample(gs, 96) + [gs[0], gs[-1]]
         for e in gs:
             for f in ('xorcomp', 'majcomp'):
                 sp = {'t': f, 'L': 3, 'R': R, 'edges': e}
@@ -359,7 +357,7 @@ def bounded_semantics(ctx, pool):
     ctx.bounds['formulas'] = ('all single clauses of width <= 3 over 3 variables (ordered, repeated and opposite literals; with 3 and with '
                               'the minimal number of variables), all pairs of clauses of width <= 2 over 2 variables, empty formula / empty '
                               'clause with 0..3 variables, named-variable formulas, {} random 3-clause formulas over 3 variables{}; {} formulas'
-                              ).format(3000 if thorough else 300,
+                              ).format(3000 if thorough else 1000,
                                        '; all pairs of width <= 2 over 3 variables, all triples of width <= 2 over 2 variables, 4 variables' if thorough else '',
                                        len(fs))
     ctx.bounds['transformations'] = ('xor/or/maj/eq/neq/eq(invert)/one with k<={kk}; exact/atleast/atmost/anybut and LinearSubstitution < > (all six '
@@ -388,7 +386,7 @@ def bounded_compression(ctx, pool):
     thorough = ctx.tier == 'thorough'
     rng = random.Random(ctx.seed + 1)
     cases = compression_cases(thorough, rng)
-    ctx.bounds['compression'] = ('xor and maj compression: all bipartite graphs Lx R with L<=3, R<=3 (quick: 98 of the 512 3x3 graphs) x single '
+    ctx.bounds['compression'] = ('xor and maj compression: all bipartite graphs Lx R with L<=3, R<=3 x single '
                                  'clauses / clause pairs over L variables; random graphs up to 4x6 given as cnfgen or networkx graphs; {} cases'
                                  ).format(len(cases))
     tasks = [(c, n, nm, [sp]) for c, n, nm, sp in cases]
